@@ -33,8 +33,8 @@ type pworld struct {
 	ClusterSt   int      `json:"cluster_st"`
 	ClusterBody string   `json:"cluster_body"`
 	Hosts       []phost  `json:"hosts"`
-	EchoHeaders bool     `json:"echo_headers"` // error bodies echo the request headers
-	AlwaysDeny  bool     `json:"always_deny"`  // 401 even with Authorization
+	EchoHeaders bool     `json:"echo_headers"`   // error bodies echo the request headers
+	AlwaysDeny  bool     `json:"always_deny"`    // 401 even with Authorization
 	HostChal    string   `json:"host_challenge"` // log downloads are always answered 401 with this challenge: "basic", "digest-sha512", "bearer"
 	_           []string `json:"-"`
 }
@@ -93,6 +93,21 @@ func init() {
 				fmt.Fprintf(rw, "denied; your headers: %v", r.Header)
 			}
 		}
+		if w.HostChal != "" && strings.Contains(r.URL.Path, "/logs/") {
+			switch w.HostChal {
+			case "basic":
+				rw.Header().Set("WWW-Authenticate", `Basic realm="MMS Public API"`)
+			case "digest-sha512":
+				rw.Header().Set("WWW-Authenticate", `Digest realm="MMS Public API", nonce="n0nc3xyz", algorithm=SHA-512-256, qop="auth"`)
+			default:
+				rw.Header().Set("WWW-Authenticate", `Bearer realm="x"`)
+			}
+			rw.WriteHeader(401)
+			if w.EchoHeaders {
+				fmt.Fprintf(rw, "denied; your headers: %v", r.Header)
+			}
+			return
+		}
 		if w.AlwaysDeny || (w.Challenge != "none" && auth == "") {
 			deny()
 			return
@@ -108,21 +123,6 @@ func init() {
 				return
 			}
 			rw.Write([]byte(w.ClusterBody))
-			return
-		}
-		if w.HostChal != "" {
-			switch w.HostChal {
-			case "basic":
-				rw.Header().Set("WWW-Authenticate", `Basic realm="MMS Public API"`)
-			case "digest-sha512":
-				rw.Header().Set("WWW-Authenticate", `Digest realm="MMS Public API", nonce="n0nc3xyz", algorithm=SHA-512-256, qop="auth"`)
-			default:
-				rw.Header().Set("WWW-Authenticate", `Bearer realm="x"`)
-			}
-			rw.WriteHeader(401)
-			if w.EchoHeaders {
-				fmt.Fprintf(rw, "denied; your headers: %v", r.Header)
-			}
 			return
 		}
 		// the i-th distinct log path gets the i-th scripted answer (a transparent retry of net/http gets the same one)
